@@ -210,6 +210,10 @@ pub fn record(seed: u64, n: usize, cli: &str) -> Vec<J> {
         items.push((items.len(), mv::str_src(t), false));
         items.push((items.len(), format!("[{}, {{[{}]: {}}}]", mv::str_src(t), mv::str_src(t), mv::str_src(t)), false));
     }
+    // one value reached twice (and three times) inside an output: sharing is not a cycle
+    for t in ["(do {\n  a = [1, {k: \"v\"}]\n  return {p: a, q: a, r: [a, [a]]}\n})", "(do {\n  e = []\n  o = {}\n  return [e, e, o, o, {x: e, y: o}]\n})", "(s => [s, s, {s}])(\"twice\")", "(do {\n  r = {n: [1, 2]}\n  return [r, r.n, r.n, r]\n})"] {
+        items.push((items.len(), t.to_string(), false));
+    }
     items.push((items.len(), "[\"/*\", \"k\", \"*/\", {\"/* a\": 1, \"b */\": 2}, \" //\", 3]".to_string(), false));
     // ... and long strings of 2-, 3- and 4-byte characters at every byte alignment: a reader that decodes the piped
     // document piecewise splits a character wherever a piece ends
